@@ -33,11 +33,11 @@ macro_rules! c16_layout {
                 c16_check(stringify!($ty), &$ty);
             }
             #[kani::proof]
-            pub fn c16_t_any() {
+            pub fn c16_q_any() {
                 c16_check(concat!("AnyLayout::", stringify!($ty)), &AnyLayout::$ty($ty));
             }
             #[kani::proof]
-            pub fn c16_t_anyref() {
+            pub fn c16_q_anyref() {
                 let a = AnyLayout::$ty($ty);
                 c16_check(concat!("&AnyLayout::", stringify!($ty)), &&a);
             }
